@@ -495,7 +495,15 @@ type sqEdit struct {
 func (g *sqGen) edit(s *sqSchema) *sqEdit {
 	for try := 0; try < 20; try++ {
 		t := hx.Pick(g.r, s.Tables)
-		switch g.r.Intn(16) {
+		switch g.r.Intn(17) {
+		case 16:
+			// a NAMED check keeps its name and gets another expression
+			for i := range t.Checks {
+				if ck := &t.Checks[i]; ck.Name != "" {
+					ck.Expr = fmt.Sprintf("id > -%d", 20+g.r.Intn(9))
+					return &sqEdit{"modify-check-expression", t.Name, ck.Name}
+				}
+			}
 		case 15:
 			// a generated column becomes an ordinary one (same name and type): its computed values survive
 			for i := range t.Cols {
